@@ -61,10 +61,18 @@ class Sim:
             self.f = apache.HtpasswdFile(context=ctx_obj, **kw) if ctx_obj is not None else apache.HtpasswdFile(**kw)
             orig = self.f.context.verify_and_update
 
+            raw = {}
+
             def spy(pwd, h, _orig=orig):
+                key = (pwd if isinstance(pwd, bytes) else pwd.encode(), h if isinstance(h, bytes) else h.encode())
+                if key in raw:
+                    # the context is a parameter of the model: one answer per (password, hash) question.  The real context would draw
+                    # a fresh random salt for a second identical question; replaying its first answer keeps the table single-valued.
+                    return raw[key]
                 ok, new = _orig(pwd, h)
                 nb = None if new is None else (new if isinstance(new, bytes) else new.encode())
-                self.vau[(pwd if isinstance(pwd, bytes) else pwd.encode(), h if isinstance(h, bytes) else h.encode())] = (ok, nb)
+                self.vau[key] = (ok, nb)
+                raw[key] = (ok, new)
                 return ok, new
 
             self.f.context = _Ctx(self.f.context, spy)
